@@ -45,6 +45,15 @@ func c03Classify(t c03Case, f *syntax.File, text string, diffs []string, o *c03O
 		return "interp-function-listing-reflects-source-layout"
 	case onlyBash && c03HasOnly(t, "sl") && c03ParseTimeSwitch(f, text):
 		return "single-line-joins-parse-time-switch-with-its-use"
+	case onlyBash && c03HeredocLineContinuesInsideSubst(f):
+		return "bash52-drops-commands-after-heredoc-line-inside-substitution"
+	case onlyBash && c03BackquotedHeredocBodyOutside(f):
+		return "backquoted-heredoc-with-body-after-the-line"
+	case c03HasOnly(t, "sl") && c03NestedBackgroundBeforeSibling(f):
+		return "single-line-separator-lost-after-nested-background"
+	case strings.Contains(t.Src, "LINENO"):
+		// formatting moves commands to other lines; $LINENO shows it
+		return "observes-line-numbers"
 	case c03HasOnly(t, "sl") && c03HeredocInsideHeredocBody(f):
 		return "single-line-nested-heredoc-in-heredoc-body"
 	case onlyBash && gotB.Flag == "" && c03PrefixRelated(o.bash.Out, gotB.Out) &&
@@ -62,18 +71,12 @@ func c03PrefixRelated(a, b string) bool {
 	return strings.HasPrefix(a, b) || strings.HasPrefix(b, a)
 }
 
-// c03SameLineJoinChanged: the set of diagnostics is the same in both runs up
-// to the line numbers (the failing command itself behaves the same; only what
-// bash does with the rest of its line differs).
+// c03SameLineJoinChanged: both runs report the same kind of error first (the
+// failing command itself behaves the same; only what bash does with the rest
+// of its line differs).
 func c03SameLineJoinChanged(src, text, errA, errB string) bool {
-	norm := func(s string) string {
-		return regexp.MustCompile(`line [0-9]+:`).ReplaceAllString(s, "line N:")
-	}
-	a, b := strings.Split(strings.TrimSpace(norm(errA)), "\n"), strings.Split(strings.TrimSpace(norm(errB)), "\n")
-	if len(a) == 0 || len(b) == 0 {
-		return false
-	}
-	return a[0] == b[0]
+	a, b := c03BashLineAbort.FindString(errA), c03BashLineAbort.FindString(errB)
+	return a != "" && a == b
 }
 
 // c03ParamBeforeBrace: some word has a braced simple parameter expansion
@@ -250,4 +253,128 @@ func c03ParseTimeSwitch(f *syntax.File, text string) bool {
 		}
 	}
 	return false
+}
+
+// c03NestedBackgroundBeforeSibling: some statement list has a non-background
+// statement that contains a background statement and is followed by another
+// statement (SingleLine then omits the separator: `{ a & } b`).
+func c03NestedBackgroundBeforeSibling(f *syntax.File) bool {
+	found := false
+	hasBg := func(s *syntax.Stmt) bool {
+		bg := false
+		syntax.Walk(s, func(n syntax.Node) bool {
+			if st, ok := n.(*syntax.Stmt); ok && st != s && st.Background {
+				bg = true
+			}
+			return !bg
+		})
+		return bg
+	}
+	list := func(l []*syntax.Stmt) {
+		for i := 0; i+1 < len(l); i++ {
+			if !l[i].Background && hasBg(l[i]) {
+				found = true
+			}
+		}
+	}
+	syntax.Walk(f, func(n syntax.Node) bool {
+		switch n := n.(type) {
+		case *syntax.File:
+			list(n.Stmts)
+		case *syntax.Block:
+			list(n.Stmts)
+		case *syntax.Subshell:
+			list(n.Stmts)
+		case *syntax.CmdSubst:
+			list(n.Stmts)
+		case *syntax.ProcSubst:
+			list(n.Stmts)
+		case *syntax.CaseItem:
+			list(n.Stmts)
+		case *syntax.IfClause:
+			list(n.Cond)
+			list(n.Then)
+		case *syntax.WhileClause:
+			list(n.Cond)
+			list(n.Do)
+		case *syntax.ForClause:
+			list(n.Do)
+		}
+		return !found
+	})
+	return found
+}
+
+// c03BackquotedHeredocBodyOutside: a here-document is opened inside a
+// backquoted command substitution and its body follows the line, outside the
+// backquotes. The parser accepts that like $(…); bash ends such a
+// here-document at the closing backquote.
+func c03BackquotedHeredocBodyOutside(f *syntax.File) bool {
+	found := false
+	syntax.Walk(f, func(n syntax.Node) bool {
+		cs, ok := n.(*syntax.CmdSubst)
+		if !ok || !cs.Backquotes {
+			return !found
+		}
+		syntax.Walk(cs, func(m syntax.Node) bool {
+			if r, ok := m.(*syntax.Redirect); ok && r.Hdoc != nil && r.Hdoc.Pos().After(cs.Right) {
+				found = true
+			}
+			return !found
+		})
+		return !found
+	})
+	return found
+}
+
+// c03HeredocLineContinuesInsideSubst: inside $( ) or <( ), a statement that
+// opens a here-document is followed on the same line by a sibling statement
+// (`$(c <<E; echo s⏎body⏎E⏎)`). bash 5.2 loses or rejects the rest of that
+// line; the printed form puts the sibling on its own line.
+func c03HeredocLineContinuesInsideSubst(f *syntax.File) bool {
+	found := false
+	hdocLine := func(s *syntax.Stmt) uint {
+		var line uint
+		syntax.Walk(s, func(n syntax.Node) bool {
+			if r, ok := n.(*syntax.Redirect); ok && (r.Op == syntax.Hdoc || r.Op == syntax.DashHdoc) && line == 0 {
+				line = r.OpPos.Line()
+			}
+			return true
+		})
+		return line
+	}
+	list := func(l []*syntax.Stmt) {
+		for i := 0; i+1 < len(l); i++ {
+			if hl := hdocLine(l[i]); hl != 0 && l[i+1].Pos().Line() == hl {
+				found = true
+			}
+		}
+	}
+	inside := func(root syntax.Node) {
+		syntax.Walk(root, func(n syntax.Node) bool {
+			switch n := n.(type) {
+			case *syntax.CmdSubst:
+				list(n.Stmts)
+			case *syntax.ProcSubst:
+				list(n.Stmts)
+			case *syntax.Block:
+				list(n.Stmts)
+			case *syntax.Subshell:
+				list(n.Stmts)
+			}
+			return !found
+		})
+	}
+	syntax.Walk(f, func(n syntax.Node) bool {
+		switch n := n.(type) {
+		case *syntax.CmdSubst:
+			if !n.Backquotes {
+				inside(n)
+			}
+		case *syntax.ProcSubst:
+			inside(n)
+		}
+		return !found
+	})
+	return found
 }
